@@ -87,6 +87,9 @@ func (s *scRebal) Configure(w *World) {
 		c.W.Persist = 5
 		c.Extra["rm"] = "1"
 	}
+	if (s.prop == "C12r" || s.prop == "C11" || s.prop == "C13r") && t.Draw(4, nil) == 0 {
+		c.YieldSites = map[string]bool{"stream.wait.close-token": true, "stream.wait.end-token": true}
+	}
 	if s.prop == "C12r" {
 		// finite mode across a rebalance: the session opened by the rebalance runs to its end seqnos
 		c.DcpMode = "finite"
